@@ -23,7 +23,8 @@ def run(ctx):
         e["t"] = 2
     vlib.note_events(ctx, g + t)
     vlib.call_history_model(ctx)
-    vlib.call_histories(ctx, binp, t, ["bech32.Encode"], "Bech32Trace", "real Encode (or Decode of its output) disagrees with the Bech32 specification")
+    vlib.call_histories(ctx, binp, t, ["bech32.Encode"], "Bech32Trace", "real Encode (or Decode of its output) disagrees with the Bech32 specification",
+                        reject_from=(full, ["bech32.Decode"]))
     bc.judge(ctx, binp, g + t, "real Encode (or Decode of its output) disagrees with the Bech32 specification", history=g + full)
     return vlib.finish(ctx, LEVEL, RULE, bc.ASSUME, matchers=bc.MATCHERS,
                        technique="TLA+ spec Bech32; TLC-generated (hrp,data) replayed; recorded Encode calls and the real round trip validated by TLC")
